@@ -96,7 +96,14 @@ Fixpoint accepts (p : spat) (v : value) {struct p} : bool :=
       && all2 post (skipn (n - length post) vs)
     | _ => false
     end
-  | SCmp ne c => match v with VInt k => if ne then negb (N.eqb k c) else N.eqb k c | _ => false end
+  | SCmp ne c =>
+    match v with
+    | VInt k => if ne then negb (N.eqb k c) else N.eqb k c
+    | VCon name [VInt shown; VInt hidden] =>
+      (* an Amb operand is written eq!(&Amb(c / 4, c mod 4)): derived PartialEq compares both fields *)
+      if String.eqb name "Amb" then (if ne then negb (N.eqb (4 * shown + hidden) c) else N.eqb (4 * shown + hidden) c) else false
+    | _ => false
+    end
   end.
 
 Fixpoint accepts_all (ps : list spat) (vs : list value) : bool :=
@@ -196,7 +203,10 @@ Definition diag_stmt (i : nat) (k : arg_kind) (t : pty) (p : spat) (v : value) :
     if accepts p v then None
     else Some {| mm_pat := O; mm_input := i; mm_kind_of := if ne then MNe else MEq;
                  mm_actual := res_text (resolve (arg_expr_type k t)) v;
-                 mm_expected := res_text (resolve (TRef false (TB BInt))) (VInt c) |}
+                 mm_expected := match v with
+                                | VCon _ (_ :: _) => Some (fmt_debug (VCon "Amb" [VInt (c / 4); VInt (c mod 4)]))
+                                | _ => res_text (resolve (TRef false (TB BInt))) (VInt c)
+                                end |}
   | _ =>
     if accepts p v then None
     else Some {| mm_pat := O; mm_input := i; mm_kind_of := MPattern;
